@@ -63,6 +63,9 @@ fn serialize_range_mappings(sm: &SourceMap) -> Option<String> {
     let mut empty = true;
 
     let mut idx_of_first_in_line = 0;
+    // number of tokens on the current line that `serialize_mappings` skips
+    // because they are exact duplicates of their predecessor
+    let mut skipped_in_line = 0;
 
     let mut rmi_data = Vec::<u8>::new();
 
@@ -77,13 +80,19 @@ fn serialize_range_mappings(sm: &SourceMap) -> Option<String> {
             prev_line += 1;
             had_rmi = false;
             idx_of_first_in_line = idx;
+            skipped_in_line = 0;
+        }
+
+        if idx > idx_of_first_in_line && Some(&token) == sm.get_token(idx - 1).as_ref() {
+            skipped_in_line += 1;
+            continue;
         }
 
         if token.is_range() {
             had_rmi = true;
             empty = false;
 
-            let num = idx - idx_of_first_in_line;
+            let num = idx - idx_of_first_in_line - skipped_in_line;
 
             if rmi_data.len() * 8 <= num {
                 rmi_data.resize(num / 8 + 1, 0);
